@@ -16,7 +16,9 @@
 // socket) returned yields NNG_ECLOSED / NNG_ENOENT (or the documented value
 // for the *_id functions): concurrent form in the submitters, table-driven
 // form in the main thread; (4) sanitizer/panic/allocator balance.
+#ifndef _GNU_SOURCE
 #define _GNU_SOURCE
+#endif
 #include "vfh.h"
 #include <arpa/inet.h>
 #include <errno.h>
@@ -49,12 +51,14 @@ typedef struct hnd {
 	_Atomic int dead;  // a close of it / of its socket has returned 0
 	_Atomic int dying; // pipes: closed (or endpoint closed); reaped asynchronously
 	_Atomic int probed;
+	const char *role; // pending element this handle owns (NULL: none)
 } hnd;
 
 enum { OP_SOCK_RECV, OP_SOCK_SEND, OP_CTX_RECV, OP_CTX_SEND, OP_DIAL_AIO, OP_DEVICE, OP_NK };
 static const char *op_names[] = { "sock-recv", "sock-send", "ctx-recv", "ctx-send", "dial-aio", "device" };
 
 struct casectx;
+struct closer;
 typedef struct rec {
 	nng_aio         *aio;
 	int              op;
@@ -66,12 +70,13 @@ typedef struct rec {
 	_Atomic int      dead_at_submit;
 	_Atomic int      pending_at_close;
 	_Atomic uint64_t t_cb;
+	struct closer *_Atomic on_cb; // close plan to run from inside this record's callback
 	bool             lost;
 	struct casectx  *cx;
 } rec;
 
-enum { B_RECVMSG, B_SENDMSG, B_CTX_RECVMSG, B_DIAL_SYNC, B_NK };
-static const char *b_names[] = { "sync-recvmsg", "sync-sendmsg", "sync-ctx-recvmsg", "sync-dial" };
+enum { B_RECVMSG, B_SENDMSG, B_CTX_RECVMSG, B_DIAL_SYNC, B_RECV_BUF, B_SEND_BUF, B_NK };
+static const char *b_names[] = { "sync-recvmsg", "sync-sendmsg", "sync-ctx-recvmsg", "sync-dial", "sync-nng_recv", "sync-nng_send" };
 typedef struct blocker {
 	pthread_t       th;
 	int             op;
@@ -85,14 +90,24 @@ typedef struct blocker {
 enum { CA_SOCK, CA_CTX, CA_DIALER, CA_LISTENER, CA_PIPE, CA_DEVCANCEL, CA_RAWFD, CA_NK };
 static const char *ca_names[] = { "nng_socket_close", "nng_ctx_close", "nng_dialer_close", "nng_listener_close", "nng_pipe_close", "device-cancel", "rawfd-close" };
 typedef struct cact {
-	int kind, hidx, delay_us, rv;
-	double ms;
+	int         kind, hidx, delay_us, rv;
+	double      ms;
+	const char *ctx_name; // where the call was made from
 } cact;
+// who issues the close calls: a harness thread, the completion callback of a
+// dedicated nng_sleep_aio (a library task thread), or the completion callback
+// of one of the case's own pending operations
+enum { CM_THREAD, CM_SLEEP_CB, CM_OP_CB };
+static const char *cm_names[] = { "thread", "sleep-aio-callback", "operation-callback" };
 typedef struct closer {
 	pthread_t       th;
 	struct casectx *cx;
 	cact            a[4];
 	int             na;
+	int             mode;
+	nng_aio        *aio;      // CM_SLEEP_CB
+	struct rec     *trigger;  // CM_OP_CB
+	_Atomic int     claimed, done;
 } closer;
 
 typedef struct subm {
@@ -224,6 +239,7 @@ h_add(casectx *cx, int kind, uint32_t id, int owner, int ep)
 	atomic_store(&h->dead, dead);
 	atomic_store(&h->dying, dying);
 	atomic_store(&h->probed, 0);
+	h->role = NULL;
 	atomic_store(&cx->nh, n + 1);
 	pthread_mutex_unlock(&cx->hmtx);
 	return n;
@@ -357,15 +373,31 @@ sock_of(casectx *cx, int hi)
 #define MK(T, hi) ((T){ .id = cx->h[hi].id })
 
 // ------------------------------------------------------------------ records
+static void closer_run(struct closer *c, int from);
+
 static void
 rec_cb(void *arg)
 {
 	rec     *r  = arg;
 	int      rv = (int) nng_aio_result(r->aio);
 	nng_msg *m  = nng_aio_get_msg(r->aio);
+	// a completion must carry a result an operation of this kind can end
+	// with: never an internal error, an allocation failure (nothing is
+	// failing allocations here) or a code nng does not define; a receive
+	// that reports success must deliver a message
+	if (rv == NNG_EINTERNAL || rv == NNG_ENOMEM || rv == NNG_EINTR || rv == NNG_EBADTYPE || rv == NNG_EINVAL || !strcmp(resname(rv), "other")) {
+		char key[128];
+		snprintf(key, sizeof(key), "C10/pending-result/%s/%s", op_names[r->op], resname(rv));
+		vf_violation(key, "%s completed with %s (%d)", op_names[r->op], resname(rv), rv);
+	}
 	switch (r->op) {
 	case OP_SOCK_RECV:
 	case OP_CTX_RECV:
+		if (rv == 0 && m == NULL) {
+			char key[128];
+			snprintf(key, sizeof(key), "C10/pending-result/%s/ok-without-message", op_names[r->op]);
+			vf_violation(key, "%s completed with 0 but delivered no message", op_names[r->op]);
+		}
 		if (rv == 0 && m != NULL) {
 			nng_msg_free(m);
 			nng_aio_set_msg(r->aio, NULL);
@@ -392,6 +424,8 @@ rec_cb(void *arg)
 	vf_class("aio=%s/%s/%s", op_names[r->op], resname(rv), atomic_load(&r->dead_at_submit) ? "submitted-dead" : atomic_load(&r->pending_at_close) ? "pending-at-close" : "other");
 	atomic_store(&r->last_rv, rv);
 	atomic_store(&r->t_cb, vf_now_ns());
+	struct closer *c = atomic_exchange(&r->on_cb, NULL);
+	if (c != NULL) closer_run(c, CM_OP_CB);
 	atomic_fetch_add(&r->n_cb, 1);
 }
 
@@ -500,6 +534,17 @@ blocker_thread(void *arg)
 	case B_DIAL_SYNC:
 		b->rv = nng_dialer_start(MK(nng_dialer, b->hidx), 0);
 		break;
+	case B_RECV_BUF: {
+		char   buf[64];
+		size_t n = sizeof(buf);
+		b->rv    = nng_recv(MK(nng_socket, b->hidx), buf, &n, 0);
+		break;
+	}
+	case B_SEND_BUF:
+		for (int i = 0; i < 64; i++) {
+			if ((b->rv = nng_send(MK(nng_socket, b->hidx), "c10-buffer", 10, 0)) != 0) break;
+		}
+		break;
 	}
 	vf_class("sync=%s/%s", b_names[b->op], resname(b->rv));
 	atomic_store(&b->done, 1);
@@ -536,6 +581,22 @@ tcp_reserved_port(uint16_t *port)
 	struct sockaddr_in sin;
 	socklen_t          sl = sizeof(sin);
 	int                fd = socket(AF_INET, SOCK_STREAM | SOCK_CLOEXEC, 0);
+	if (fd < 0) vf_harness_fail("socket: %s", strerror(errno));
+	memset(&sin, 0, sizeof(sin));
+	sin.sin_family      = AF_INET;
+	sin.sin_addr.s_addr = htonl(INADDR_LOOPBACK);
+	if (bind(fd, (struct sockaddr *) &sin, sizeof(sin)) != 0 || getsockname(fd, (struct sockaddr *) &sin, &sl) != 0) vf_harness_fail("bind: %s", strerror(errno));
+	*port = ntohs(sin.sin_port);
+	return fd;
+}
+
+// a UDP port where nobody ever answers (bound, never read)
+static int
+udp_reserved_port(uint16_t *port)
+{
+	struct sockaddr_in sin;
+	socklen_t          sl = sizeof(sin);
+	int                fd = socket(AF_INET, SOCK_DGRAM | SOCK_CLOEXEC, 0);
 	if (fd < 0) vf_harness_fail("socket: %s", strerror(errno));
 	memset(&sin, 0, sizeof(sin));
 	sin.sin_family      = AF_INET;
@@ -675,6 +736,20 @@ static int pc_get_int(penv *e) { int v; return nng_ctx_get_int(C(e), NNG_OPT_REC
 static int pc_set_proto_ms(penv *e) { return nng_ctx_set_ms(C(e), NNG_OPT_REQ_RESENDTIME, 100); }
 static int pc_get_bool(penv *e) { bool v; return nng_ctx_get_bool(C(e), NNG_OPT_SUB_PREFNEW, &v); }
 static int pc_subscribe(penv *e) { return nng_sub0_ctx_subscribe(C(e), "x", 1); }
+static int pc_set_int(penv *e) { return nng_ctx_set_int(C(e), NNG_OPT_RECVBUF, 1); }
+static int pc_set_bool(penv *e) { return nng_ctx_set_bool(C(e), NNG_OPT_SUB_PREFNEW, true); }
+static int pc_set_size(penv *e) { return nng_ctx_set_size(C(e), NNG_OPT_RECVMAXSZ, 1024); }
+static int pc_get_size(penv *e) { size_t v; return nng_ctx_get_size(C(e), NNG_OPT_RECVMAXSZ, &v); }
+static int pc_unsubscribe(penv *e) { return nng_sub0_ctx_unsubscribe(C(e), "x", 1); }
+static int ps_unsubscribe(penv *e) { return nng_sub0_socket_unsubscribe(S(e), "", 0); }
+static int pd_set_tls(penv *e) { return nng_dialer_set_tls(D(e), NULL); }
+static int pd_set_bool(penv *e) { return nng_dialer_set_bool(D(e), NNG_OPT_TCP_NODELAY, true); }
+static int pd_set_string(penv *e) { return nng_dialer_set_string(D(e), NNG_OPT_WS_PROTOCOL, "x"); }
+static int pd_get_string(penv *e) { const char *v; return nng_dialer_get_string(D(e), NNG_OPT_WS_PROTOCOL, &v); }
+static int pl_set_tls(penv *e) { return nng_listener_set_tls(L(e), NULL); }
+static int pl_set_ms(penv *e) { return nng_listener_set_ms(L(e), NNG_OPT_RECVTIMEO, 10); }
+static int pl_get_string(penv *e) { const char *v; return nng_listener_get_string(L(e), NNG_OPT_WS_PROTOCOL, &v); }
+static int pl_get_bool(penv *e) { bool v; return nng_listener_get_bool(L(e), NNG_OPT_TCP_NODELAY, &v); }
 static int pc_id(penv *e) { return nng_ctx_id(C(e)) == (int) e->id ? P_DOC : P_BAD; }
 // dialer
 static int pd_close(penv *e) { return nng_dialer_close(D(e)); }
@@ -738,6 +813,12 @@ static const struct probe {
 	{ H_CTX, "nng_ctx_send", pc_send_aio }, { H_CTX, "nng_ctx_recv", pc_recv_aio }, { H_CTX, "nng_ctx_sendmsg", pc_sendmsg }, { H_CTX, "nng_ctx_recvmsg", pc_recvmsg },
 	{ H_CTX, "nng_ctx_get_ms", pc_get_ms }, { H_CTX, "nng_ctx_set_ms", pc_set_ms }, { H_CTX, "nng_ctx_get_int", pc_get_int },
 	{ H_CTX, "nng_ctx_set_ms(req:resend-time)", pc_set_proto_ms }, { H_CTX, "nng_ctx_get_bool", pc_get_bool }, { H_CTX, "nng_sub0_ctx_subscribe", pc_subscribe },
+	{ H_CTX, "nng_ctx_set_int", pc_set_int }, { H_CTX, "nng_ctx_set_bool", pc_set_bool }, { H_CTX, "nng_ctx_set_size", pc_set_size }, { H_CTX, "nng_ctx_get_size", pc_get_size },
+	{ H_CTX, "nng_sub0_ctx_unsubscribe", pc_unsubscribe }, { H_SOCK, "nng_sub0_socket_unsubscribe", ps_unsubscribe },
+	{ H_DIALER, "nng_dialer_set_tls", pd_set_tls }, { H_DIALER, "nng_dialer_set_bool", pd_set_bool }, { H_DIALER, "nng_dialer_set_string", pd_set_string },
+	{ H_DIALER, "nng_dialer_get_string", pd_get_string },
+	{ H_LISTENER, "nng_listener_set_tls", pl_set_tls }, { H_LISTENER, "nng_listener_set_ms", pl_set_ms }, { H_LISTENER, "nng_listener_get_string", pl_get_string },
+	{ H_LISTENER, "nng_listener_get_bool", pl_get_bool },
 	{ H_CTX, "nng_ctx_id", pc_id }, { H_CTX, "nng_ctx_close", pc_close },
 	{ H_DIALER, "nng_dialer_start", pd_start }, { H_DIALER, "nng_dialer_start_aio", pd_start_aio }, { H_DIALER, "nng_dialer_get_ms", pd_get_ms },
 	{ H_DIALER, "nng_dialer_set_ms", pd_set_ms }, { H_DIALER, "nng_dialer_get_size", pd_get_size }, { H_DIALER, "nng_dialer_set_size", pd_set_size },
@@ -851,6 +932,30 @@ do_close(casectx *cx, cact *a)
 		vf_violation(key, "%s returned %s", ca_names[a->kind], resname(rv));
 	}
 	vf_class("close=%s/%s/%s", ca_names[a->kind], resname(rv), dead0 ? "after-close-returned" : "first-or-concurrent");
+	if (a->ctx_name != cm_names[CM_THREAD]) vf_class("close-in-callback=%s/%s/%s", ca_names[a->kind], a->ctx_name, resname(rv));
+	if (h->role != NULL && !dead0) {
+		// which pending element met which close
+		vf_class("pair=%s/%s/%s", h->role, resname(rv), a->ctx_name);
+		vf_stat("closes_of_handle_owning_pending_element", 1);
+	}
+}
+
+// run a close plan (once), from whatever context
+static void
+closer_run(closer *c, int from)
+{
+	casectx *cx = c->cx;
+	if (atomic_exchange(&c->claimed, 1)) return;
+	for (int i = 0; i < c->na; i++) {
+		c->a[i].ctx_name = cm_names[from];
+		if (c->a[i].delay_us > 0) vf_usleep(c->a[i].delay_us);
+		do_close(cx, &c->a[i]);
+	}
+	if (from != CM_THREAD) {
+		vf_stat("close_plans_run_in_callback", 1);
+		vf_stat("close_calls_from_callback", c->na);
+	}
+	atomic_store(&c->done, 1);
 }
 
 static void *
@@ -859,11 +964,14 @@ closer_thread(void *arg)
 	closer  *c  = arg;
 	casectx *cx = c->cx;
 	while (!atomic_load(&cx->go)) sched_yield();
-	for (int i = 0; i < c->na; i++) {
-		if (c->a[i].delay_us > 0) vf_usleep(c->a[i].delay_us);
-		do_close(cx, &c->a[i]);
-	}
+	closer_run(c, CM_THREAD);
 	return NULL;
+}
+
+static void
+closer_sleep_cb(void *arg)
+{
+	closer_run(arg, CM_SLEEP_CB);
 }
 
 // ------------------------------------------------------------------ submitters
@@ -1086,6 +1194,31 @@ wait_pipes_n(nng_socket s, int n, int ms)
 	return NNG_ETIMEDOUT;
 }
 
+// transports: the five of vfh plus udp (local to this harness)
+#define T_UDP VF_T_N
+static const char *
+tname(int t)
+{
+	return t == T_UDP ? "udp" : vf_tran_names[t];
+}
+
+// socket://: both sockets get a started listener and one end of a socketpair
+static void
+connect_sockfd(casectx *cx, int a, int b, int *lh_out)
+{
+	int          fds[2], rv;
+	nng_listener la, lb;
+	if ((rv = nng_socket_pair(fds)) != 0) vf_harness_fail("nng_socket_pair: %s", nng_strerror(rv));
+	if ((rv = nng_listener_create(&la, cx->s[a], "socket://")) != 0 || (rv = nng_listener_create(&lb, cx->s[b], "socket://")) != 0) vf_harness_fail("socket:// listener_create: %s", nng_strerror(rv));
+	int lh = h_add(cx, H_LISTENER, (uint32_t) nng_listener_id(la), a, -1);
+	h_add(cx, H_LISTENER, (uint32_t) nng_listener_id(lb), b, -1);
+	if ((rv = nng_listener_start(la, 0)) != 0 || (rv = nng_listener_start(lb, 0)) != 0 || (rv = nng_listener_set_int(la, NNG_OPT_SOCKET_FD, fds[0])) != 0 ||
+	    (rv = nng_listener_set_int(lb, NNG_OPT_SOCKET_FD, fds[1])) != 0)
+		vf_harness_fail("socket:// start: %s", nng_strerror(rv));
+	if (wait_pipes_n(cx->s[a], 1, 4000) != 0 || wait_pipes_n(cx->s[b], 1, 4000) != 0) vf_harness_fail("no pipe after connect over socket://");
+	if (lh_out) *lh_out = lh;
+}
+
 // socket li listens, di dials (blocking dial), both handles registered
 static void
 connect_socks(casectx *cx, int li, int di, int tran, char *lurl_out, size_t lsz, int *lh_out)
@@ -1094,17 +1227,27 @@ connect_socks(casectx *cx, int li, int di, int tran, char *lurl_out, size_t lsz,
 	nng_listener l;
 	nng_dialer   d;
 	int          rv;
-	vf_url(tran, url, sizeof(url));
+	if (tran == VF_T_SOCKFD) {
+		connect_sockfd(cx, li, di, lh_out);
+		if (lurl_out) lurl_out[0] = 0;
+		return;
+	}
+	if (tran == T_UDP) snprintf(url, sizeof(url), "udp://127.0.0.1:0");
+	else vf_url(tran, url, sizeof(url));
 	if ((rv = nng_listener_create(&l, cx->s[li], url)) != 0) vf_harness_fail("listener_create %s: %s", url, nng_strerror(rv));
 	int lh = h_add(cx, H_LISTENER, (uint32_t) nng_listener_id(l), li, -1);
 	if ((rv = nng_listener_start(l, 0)) != 0) vf_harness_fail("listener_start %s: %s", url, nng_strerror(rv));
-	if ((rv = vf_dial_url(l, tran, url, durl, sizeof(durl))) != 0) vf_harness_fail("dial url: %s", nng_strerror(rv));
+	if (tran == T_UDP) {
+		int port = 0;
+		if ((rv = nng_listener_get_int(l, NNG_OPT_BOUND_PORT, &port)) != 0) vf_harness_fail("udp bound port: %s", nng_strerror(rv));
+		snprintf(durl, sizeof(durl), "udp://127.0.0.1:%d", port);
+	} else if ((rv = vf_dial_url(l, tran, url, durl, sizeof(durl))) != 0) vf_harness_fail("dial url: %s", nng_strerror(rv));
 	if ((rv = nng_dialer_create(&d, cx->s[di], durl)) != 0) vf_harness_fail("dialer_create %s: %s", durl, nng_strerror(rv));
 	h_add(cx, H_DIALER, (uint32_t) nng_dialer_id(d), di, -1);
 	nng_dialer_set_ms(d, NNG_OPT_RECONNMINT, 2);
 	nng_dialer_set_ms(d, NNG_OPT_RECONNMAXT, 20);
 	if ((rv = nng_dialer_start(d, 0)) != 0) vf_harness_fail("dialer_start %s: %s", durl, nng_strerror(rv));
-	if (wait_pipes_n(cx->s[li], 1, 4000) != 0 || wait_pipes_n(cx->s[di], 1, 4000) != 0) vf_harness_fail("no pipe after connect over %s", vf_tran_names[tran]);
+	if (wait_pipes_n(cx->s[li], 1, 4000) != 0 || wait_pipes_n(cx->s[di], 1, 4000) != 0) vf_harness_fail("no pipe after connect over %s", tname(tran));
 	if (lurl_out) snprintf(lurl_out, lsz, "%s", durl);
 	if (lh_out) *lh_out = lh;
 }
@@ -1123,6 +1266,18 @@ pick_child(casectx *cx, vf_rng *r, int si, int *ca_kind)
 	static const int kinds[] = { H_CTX, H_DIALER, H_LISTENER, H_PIPE };
 	static const int cas[]   = { CA_CTX, CA_DIALER, CA_LISTENER, CA_PIPE };
 	int              start   = (int) vf_below(r, 4);
+	// half of the time: a handle that owns a pending element
+	if (vf_chance(r, 1, 2)) {
+		int n = atomic_load(&cx->nh), cand[MAXH], nc = 0;
+		for (int j = 0; j < n; j++) {
+			if (cx->h[j].owner == si && cx->h[j].kind != H_SOCK && cx->h[j].role != NULL) cand[nc++] = j;
+		}
+		if (nc > 0) {
+			int hi = cand[vf_below(r, (uint32_t) nc)];
+			*ca_kind = cas[cx->h[hi].kind - 1];
+			return hi;
+		}
+	}
 	for (int k = 0; k < 4; k++) {
 		int j  = (start + k) % 4;
 		int hi = h_pick(cx, r, kinds[j], si);
@@ -1154,6 +1309,7 @@ static const int teardown_sites[] = { NNI_VP_PIPE_REAP_BEFORE_STOP, NNI_VP_PIPE_
 #define NSITES ((int) (sizeof(teardown_sites) / sizeof(teardown_sites[0])))
 
 static casectx *prev_cx[2];
+static int      cur_task_threads = 2;
 static int      wd_secs = 30;
 
 // An operation that the library lost sits on a list of an object that has been
@@ -1233,7 +1389,7 @@ run_case(long idx, vf_rng *r)
 	casectx *cx = calloc(1, sizeof(*cx));
 	char     vurl[128] = "", durl[128], url[128];
 	int      v_lh = -1, rv;
-	bool     m_expiry = !strcmp(vf_mode, "expiry"), m_redial = !strcmp(vf_mode, "redial"), m_device = !strcmp(vf_mode, "device");
+	bool     m_expiry = !strcmp(vf_mode, "expiry"), m_redial = !strcmp(vf_mode, "redial"), m_device = !strcmp(vf_mode, "device"), m_cbclose = !strcmp(vf_mode, "cbclose");
 
 	pthread_mutex_init(&cx->hmtx, NULL);
 	cx->idx = idx;
@@ -1242,9 +1398,9 @@ run_case(long idx, vf_rng *r)
 	const vf_proto *Q = vf_proto_by_name(P->peer_name);
 	cx->proto         = P;
 	uint32_t tsel     = vf_below(r, 100);
-	cx->tran          = tsel < 42 ? VF_T_INPROC : tsel < 62 ? VF_T_IPC : tsel < 95 ? VF_T_TCP : VF_T_WS;
+	cx->tran          = tsel < 36 ? VF_T_INPROC : tsel < 52 ? VF_T_IPC : tsel < 79 ? VF_T_TCP : tsel < 84 ? VF_T_WS : tsel < 92 ? VF_T_SOCKFD : T_UDP;
 	if (m_redial) cx->tran = VF_T_TCP;
-	cx->device = m_device || (!m_redial && vf_chance(r, 1, 10));
+	cx->device = m_device || (!m_redial && !m_cbclose && vf_chance(r, 1, 10));
 	cx->rawv   = !cx->device && vf_chance(r, 1, 7);
 	cx->notify = vf_chance(r, 1, 2);
 	cx->expiry = m_expiry;
@@ -1264,7 +1420,8 @@ run_case(long idx, vf_rng *r)
 		vf_pt_target(site, (int) vf_range(r, 300, 1000), 100, (int) vf_range(r, 300, 3000));
 	}
 	int shape = (int) vf_below(r, 10);
-	vf_case_begin(idx, "proto=%s%s tran=%s%s shape=%d pert=%s mode=%s", P->name, cx->rawv ? "(raw)" : "", vf_tran_names[cx->tran], cx->device ? " device" : "", shape,
+	if (m_cbclose) shape = (int) vf_below(r, 4); // the victim socket itself is closed
+	vf_case_begin(idx, "proto=%s%s tran=%s%s shape=%d pert=%s mode=%s", P->name, cx->rawv ? "(raw)" : "", tname(cx->tran), cx->device ? " device" : "", shape,
 	    pert < 2 ? "none" : pert < 5 ? "jitter" : vf_pt_name(site), vf_mode);
 	vf_url(VF_T_INPROC, cx->dead_url, sizeof(cx->dead_url)); // nobody ever listens there
 
@@ -1301,10 +1458,10 @@ run_case(long idx, vf_rng *r)
 		if (v_listens) connect_socks(cx, V, W, cx->tran, vurl, sizeof(vurl), &v_lh);
 		else connect_socks(cx, W, V, cx->tran, NULL, 0, NULL);
 		if (cx->device) connect_socks(cx, V2, X, vf_chance(r, 1, 2) ? VF_T_INPROC : VF_T_TCP, NULL, 0, NULL);
-		vf_class("element=connected/%s/%s", vf_tran_names[cx->tran], v_listens ? "listens" : "dials");
+		vf_class("element=connected/%s/%s", tname(cx->tran), v_listens ? "listens" : "dials");
 	}
 	// second pipe from the same peer (not for the one-peer protocols)
-	if (connected && v_listens && !cx->device && strncmp(P->name, "pair", 4) && vf_chance(r, 1, 4)) {
+	if (connected && v_listens && vurl[0] && !cx->device && strncmp(P->name, "pair", 4) && vf_chance(r, 1, 4)) {
 		nng_dialer d2;
 		if (nng_dial(sw, vurl, &d2, NNG_FLAG_NONBLOCK) == 0) {
 			h_add(cx, H_DIALER, (uint32_t) nng_dialer_id(d2), W, -1);
@@ -1318,7 +1475,11 @@ run_case(long idx, vf_rng *r)
 		uint16_t port;
 		int      k = (int) vf_below(r, 3);
 		if (m_redial) k = 1;
-		if (k == 0) snprintf(durl, sizeof(durl), "%s", cx->dead_url);
+		else if (cx->tran == T_UDP || vf_chance(r, 1, 8)) k = 3;
+		if (k == 3) {
+			fd_keep(cx, udp_reserved_port(&port));
+			snprintf(durl, sizeof(durl), "udp://127.0.0.1:%u", port);
+		} else if (k == 0) snprintf(durl, sizeof(durl), "%s", cx->dead_url);
 		else if (k == 1) {
 			fd_keep(cx, tcp_reserved_port(&port));
 			snprintf(durl, sizeof(durl), "tcp://127.0.0.1:%u", port);
@@ -1327,12 +1488,13 @@ run_case(long idx, vf_rng *r)
 		if ((rv = nng_dialer_create(&d, sv, durl)) != 0) vf_harness_fail("dialer_create %s: %s", durl, nng_strerror(rv));
 		dead_dh = h_add(cx, H_DIALER, (uint32_t) nng_dialer_id(d), V, -1);
 		int how = (int) vf_below(r, 4);
+		if (dead_dh >= 0) cx->h[dead_dh].role = how <= 1 ? "dialer-redialing-dead-address" : how == 2 ? "dialer-start-aio-dead-address" : NULL;
 		if (how <= 1) nng_dialer_start(d, NNG_FLAG_NONBLOCK);
 		else if (how == 2) {
 			rec *rc = rec_new(cx, OP_DIAL_AIO, dead_dh, -1, -1);
 			if (rc) rec_submit(rc);
 		} // else: created, never started
-		vf_class("element=dead-dialer/%s/%s", k == 0 ? "inproc" : k == 1 ? "tcp" : "ipc", how <= 1 ? "nonblock" : how == 2 ? "start-aio" : "unstarted");
+		vf_class("element=dead-dialer/%s/%s", k == 0 ? "inproc" : k == 1 ? "tcp" : k == 3 ? "udp" : "ipc", how <= 1 ? "nonblock" : how == 2 ? "start-aio" : "unstarted");
 	}
 
 	// ---- dial that stalls mid-handshake against a raw peer (or a flaky one)
@@ -1364,6 +1526,7 @@ run_case(long idx, vf_rng *r)
 			if (pthread_create(&cx->fk.th, NULL, flaky_thread, &cx->fk) != 0) vf_harness_fail("pthread_create");
 		}
 		int how = (int) vf_below(r, 3);
+		if (dh >= 0) cx->h[dh].role = flk ? "dialer-flaky-peer" : how == 0 ? "dialer-stalled-handshake" : how == 1 ? "dialer-start-aio-stalled-handshake" : "dialer-sync-start-blocked";
 		if (how == 0 || flk) nng_dialer_start(d, NNG_FLAG_NONBLOCK);
 		else if (how == 1) {
 			rec *rc = rec_new(cx, OP_DIAL_AIO, dh, -1, -1);
@@ -1390,7 +1553,7 @@ run_case(long idx, vf_rng *r)
 			t = vf_chance(r, 2, 3) ? VF_T_TCP : VF_T_IPC;
 			vf_url(t, url, sizeof(url));
 			if (nng_listener_create(&l, sv, url) == 0) {
-				h_add(cx, H_LISTENER, (uint32_t) nng_listener_id(l), V, -1);
+				v_lh = h_add(cx, H_LISTENER, (uint32_t) nng_listener_id(l), V, -1);
 				if (nng_listener_start(l, 0) == 0 && vf_dial_url(l, t, url, vurl, sizeof(vurl)) == 0) have = true;
 			}
 		}
@@ -1402,9 +1565,10 @@ run_case(long idx, vf_rng *r)
 					stall_bytes(fd, P->peer, (int) vf_below(r, 8), t == VF_T_WS);
 					fd_keep(cx, fd);
 					cx->stall_accepts++;
+					if (v_lh >= 0) cx->h[v_lh].role = "listener-stalled-accept";
 				}
 			}
-			vf_class("element=stalled-accept/%s", vf_tran_names[t]);
+			vf_class("element=stalled-accept/%s", tname(t));
 		}
 	}
 
@@ -1414,9 +1578,10 @@ run_case(long idx, vf_rng *r)
 		int          t = (int) vf_below(r, 3);
 		vf_url(t, url, sizeof(url));
 		if (nng_listener_create(&l, sv, url) == 0) {
-			h_add(cx, H_LISTENER, (uint32_t) nng_listener_id(l), V, -1);
+			int ih = h_add(cx, H_LISTENER, (uint32_t) nng_listener_id(l), V, -1);
+			if (ih >= 0) cx->h[ih].role = "listener-idle";
 			if (vf_chance(r, 4, 5)) nng_listener_start(l, 0);
-			vf_class("element=idle-listener/%s", vf_tran_names[t]);
+			vf_class("element=idle-listener/%s", tname(t));
 		}
 	}
 
@@ -1439,6 +1604,7 @@ run_case(long idx, vf_rng *r)
 		ctxh[i] = h_add(cx, H_CTX, (uint32_t) nng_ctx_id(c), V, -1);
 		if (!strcmp(P->name, "sub")) nng_sub0_ctx_subscribe(c, "", 0);
 		rec *a = rec_new(cx, sendfirst ? OP_CTX_SEND : OP_CTX_RECV, ctxh[i], tmo, -1);
+		if (ctxh[i] >= 0) cx->h[ctxh[i]].role = sendfirst ? "ctx-request-outstanding" : "ctx-recv-pending";
 		if (a) rec_submit(a);
 		if (sendfirst && a) {
 			rec_wait(a, 100);
@@ -1461,8 +1627,8 @@ run_case(long idx, vf_rng *r)
 		int nblk = (int) vf_below(r, 3);
 		for (int i = 0; i < nblk && !m_expiry; i++) {
 			int k = (int) vf_below(r, 3);
-			if (k == 0 && can_recv(P)) blocker_add(cx, B_RECVMSG, cx->sh[V]);
-			else if (k == 1 && can_send(P) && strcmp(P->name, "pub") && strcmp(P->name, "bus")) blocker_add(cx, B_SENDMSG, cx->sh[V]);
+			if (k == 0 && can_recv(P)) blocker_add(cx, vf_chance(r, 1, 3) ? B_RECV_BUF : B_RECVMSG, cx->sh[V]);
+			else if (k == 1 && can_send(P) && strcmp(P->name, "pub") && strcmp(P->name, "bus")) blocker_add(cx, vf_chance(r, 1, 3) ? B_SEND_BUF : B_SENDMSG, cx->sh[V]);
 			else if (k == 2 && nctx > 0 && !sendfirst) blocker_add(cx, B_CTX_RECVMSG, ctxh[vf_below(r, (uint32_t) nctx)]);
 		}
 	}
@@ -1505,6 +1671,14 @@ run_case(long idx, vf_rng *r)
 	}
 	if (retry_armed) vf_msleep((int) vf_range(r, 1, 12)); // let a retry or two happen
 	else if (vf_chance(r, 1, 2)) vf_quiesce(0, 50);
+
+	// remaining endpoints / pipes of V that carry a connection
+	for (int j = 0, n = atomic_load(&cx->nh); j < n; j++) {
+		hnd *h = &cx->h[j];
+		if (h->owner != V || h->role != NULL) continue;
+		if (h->kind == H_PIPE) h->role = "pipe-connected";
+		else if (connected && (h->kind == H_DIALER || h->kind == H_LISTENER) && j < 8) h->role = h->kind == H_DIALER ? "dialer-with-pipe" : "listener-with-pipe";
+	}
 
 	// ---- close plan
 	int vh = cx->sh[V], wh = cx->sh[W], ck = 0, ck2 = 0;
@@ -1557,16 +1731,88 @@ run_case(long idx, vf_rng *r)
 	vf_stat("aios_pending_when_close_began", pending);
 	vf_stat("threads_blocked_when_close_began", blocked);
 
-	// ---- run
+	// ---- run: each close plan is issued by a harness thread, or from inside a
+	// library callback (a task thread): the completion of a dedicated
+	// nng_sleep_aio, or the completion of one of the pending operations
+	// A close call blocks the task thread it is made on until the pipes are
+	// reaped, and the reaper needs a task thread for the pipes' own callbacks
+	// (a running device ends by closing its sockets on a task thread as
+	// well): as many blocking calls as there are task threads is a deadlock
+	// by construction, not a finding.  Keep one thread free.
+	int cb_budget = cur_task_threads - 1 - (cx->device ? 1 : 0);
 	for (int t = 0; t < cx->ncl; t++) {
-		cx->cl[t].cx = cx;
-		if (pthread_create(&cx->cl[t].th, NULL, closer_thread, &cx->cl[t]) != 0) vf_harness_fail("pthread_create");
+		closer *c = &cx->cl[t];
+		c->cx     = cx;
+		c->mode   = CM_THREAD;
+		uint32_t msel = vf_below(r, 10);
+		if (m_cbclose && msel >= 2) msel = msel < 4 ? 6 : 9;
+		if (c->na == 0 || msel < 6 || cb_budget <= 0) continue;
+		cb_budget--;
+		// Outside mode cbclose a plan that closes a socket is not run from an
+		// operation's own callback: that callback may be running inside the
+		// receive/send completion of the very pipe the close then waits for
+		// (nni_aio_finish_sync), see mode cbclose for that shape.
+		bool has_sock = false;
+		for (int i = 0; i < c->na; i++) has_sock |= c->a[i].kind == CA_SOCK;
+		if (msel < 8 || (has_sock && !m_cbclose)) {
+			c->mode = CM_SLEEP_CB;
+			if (nng_aio_alloc(&c->aio, closer_sleep_cb, c) != 0) vf_harness_fail("aio alloc");
+			continue;
+		}
+		for (int i = 0; i < cx->nr; i++) {
+			rec *rc = &cx->r[i];
+			if (rc->owner_sub < 0 && rc->op != OP_DEVICE && !rec_idle(rc) && atomic_load(&rc->on_cb) == NULL && cx->h[rc->hidx].owner == V && vf_chance(r, 1, 2)) {
+				c->mode    = CM_OP_CB;
+				c->trigger = rc;
+				break;
+			}
+		}
+		if (c->mode == CM_THREAD) cb_budget++;
+	}
+	for (int t = 0; t < cx->ncl; t++) {
+		closer *c = &cx->cl[t];
+		if (c->mode == CM_THREAD && pthread_create(&c->th, NULL, closer_thread, c) != 0) vf_harness_fail("pthread_create");
 	}
 	for (int k = 0; k < cx->nsub; k++) {
 		if (pthread_create(&cx->sub[k].th, NULL, submitter_thread, &cx->sub[k]) != 0) vf_harness_fail("pthread_create");
 	}
 	atomic_store(&cx->go, 1);
-	for (int t = 0; t < cx->ncl; t++) pthread_join(cx->cl[t].th, NULL);
+	bool any_opcb = false;
+	for (int t = 0; t < cx->ncl; t++) {
+		closer *c = &cx->cl[t];
+		if (c->mode == CM_SLEEP_CB) nng_sleep_aio((nng_duration) vf_below(r, 3), c->aio);
+		if (c->mode == CM_OP_CB) {
+			atomic_store(&c->trigger->on_cb, c);
+			any_opcb = true;
+		}
+	}
+	if (any_opcb && connected && can_send(Q)) {
+		// give the designated operation a chance to complete by itself
+		for (int i = 0; i < 2; i++) {
+			nng_msg *m = mkmsg();
+			if (nng_sendmsg(sw, m, NNG_FLAG_NONBLOCK) != 0) nng_msg_free(m);
+		}
+	}
+	for (int t = 0; t < cx->ncl; t++) {
+		closer *c = &cx->cl[t];
+		if (c->mode == CM_THREAD) pthread_join(c->th, NULL);
+	}
+	for (int t = 0; t < cx->ncl; t++) {
+		closer *c = &cx->cl[t];
+		if (c->mode == CM_THREAD) continue;
+		if (c->mode == CM_OP_CB) {
+			// the operation may never complete by itself (its object is not
+			// closed by anybody else): then the plan is run here
+			for (int k = 0; k < 100 && !atomic_load(&c->claimed); k++) vf_usleep(100);
+			if (atomic_exchange(&c->trigger->on_cb, NULL) != NULL) {
+				closer_run(c, CM_THREAD);
+				vf_stat("close_plans_fallback_to_thread", 1);
+			}
+		}
+		// (a close call that never returns ends here: watchdog)
+		while (!atomic_load(&c->done)) vf_usleep(100);
+		if (c->aio != NULL) nng_aio_free(c->aio);
+	}
 	// every close call has returned
 	vf_usleep((int) vf_range(r, 200, 1500));
 	atomic_store(&cx->stop, 1);
@@ -1648,11 +1894,11 @@ run_case(long idx, vf_rng *r)
 	vf_stat("handles_tracked", atomic_load(&cx->nh));
 	if (cx->notify) vf_stat("pipe_rem_post_events", atomic_load(&cx->rem_post));
 	vf_stat("cases", 1);
-	vf_class("case=%s%s/%s/shape%d", P->name, cx->device ? "(device)" : cx->rawv ? "(raw)" : "", vf_tran_names[cx->tran], shape);
+	vf_class("case=%s%s/%s/shape%d", P->name, cx->device ? "(device)" : cx->rawv ? "(raw)" : "", tname(cx->tran), shape);
 	vf_class("pert=%s", pert < 2 ? "none" : pert < 5 ? "jitter" : vf_pt_name(site));
 	if ((idx & 31) == 0) {
 		vf_sample("{\"proto\":\"%s\",\"raw\":%d,\"device\":%d,\"tran\":\"%s\",\"shape\":%d,\"closers\":%d,\"submitters\":%d,\"aios_pending\":%d,\"threads_blocked\":%d,\"handles\":%d,\"stalled_dials\":%d,\"stalled_accepts\":%d,\"pert\":\"%s\"}",
-		    P->name, cx->rawv, cx->device, vf_tran_names[cx->tran], shape, cx->ncl, cx->nsub, pending, blocked, atomic_load(&cx->nh), cx->stall_dials, cx->stall_accepts, pert < 2 ? "none" : pert < 5 ? "jitter" : vf_pt_name(site));
+		    P->name, cx->rawv, cx->device, tname(cx->tran), shape, cx->ncl, cx->nsub, pending, blocked, atomic_load(&cx->nh), cx->stall_dials, cx->stall_accepts, pert < 2 ? "none" : pert < 5 ? "jitter" : vf_pt_name(site));
 	}
 	if (cx->keep) {
 		if (nkept < 512) kept[nkept++] = cx; // stays reachable
@@ -1691,6 +1937,8 @@ main(int argc, char **argv)
 	int              inited = 0, since = 0;
 	long             base_live = 0;
 	no_late_aio = !strcmp(vf_mode, "nolate") || !strcmp(vf_mode, "redial");
+	if (vf_from > 0) vf_stat("processes_restarted_after_a_death", 1);
+	vf_stat("processes_started", 1);
 	if (getenv("C10_WD")) wd_secs = atoi(getenv("C10_WD"));
 	vf_watchdog(wd_secs);
 	for (long i = 0; i < vf_cases; i++) {
@@ -1698,6 +1946,7 @@ main(int argc, char **argv)
 		if (!inited) {
 			const int *sh = shapes[(vf_mix64(vf_seed + (uint64_t) i) >> 8) & 1];
 			vf_nng_init(sh[0], sh[1], sh[2]);
+			cur_task_threads = sh[0];
 			vf_class("pool-shape/%d-%d-%d", sh[0], sh[1], sh[2]);
 			inited = 1;
 			since  = 0;
